@@ -209,7 +209,9 @@ func (h *history) deviations(r *report.Run, base []blockDigest) []dev {
 		// default: wall clock = chain time; deviations: a node replaying the history 40 days / 3 years later, one whose clock is behind, a jittering clock
 		out = append(out, dev{Kind: "clock", Skew: 40 * 86400}, dev{Kind: "clock", Skew: 1100 * 86400}, dev{Kind: "clock", Skew: -400 * 86400}, dev{Kind: "clock", Skew: 3600, PerBlock: true})
 	}
-	// restart / queries at block boundaries
+	// restart / queries at block boundaries (appended last: they are the most numerous, and a
+	// deadline cap should cut them rather than the environment / clock / map deviations)
+	var boundary []dev
 	interesting := func(i int) bool {
 		if r.Thorough() {
 			return true
@@ -219,7 +221,7 @@ func (h *history) deviations(r *report.Run, base []blockDigest) []dev {
 	}
 	for i := 1; i < len(base); i++ {
 		if interesting(i) {
-			out = append(out, dev{Kind: "restart", At: i}, dev{Kind: "query", At: i})
+			boundary = append(boundary, dev{Kind: "restart", At: i}, dev{Kind: "query", At: i})
 		}
 	}
 	// map iteration (patched runtime only)
@@ -263,7 +265,7 @@ func (h *history) deviations(r *report.Run, base []blockDigest) []dev {
 	} else {
 		r.Extra["map_hook"] = "unavailable in this build"
 	}
-	return out
+	return append(out, boundary...)
 }
 
 // execute runs the whole history under deviation d and returns per-block digests.
